@@ -822,7 +822,8 @@ class World:
             if d:
                 d.callback(None)
         elif k == "mb.drop":
-            self._kill(e[1], clean=False)
+            # arg "clean": the server (or a proxy) ends the WebSocket with a proper close frame (code 1000)
+            self._kill(e[1], clean=(arg == "clean"))
         elif k == "net.connect":
             cn = e[1]
             self.net.pending.remove(cn)
@@ -909,6 +910,8 @@ class World:
             if tape.exhausted():
                 return None
             return tape.choice([None, None, 1, 2, 5, 40, 1000, 3, None])
+        if e[0] == "mb.drop" and getattr(self, "clean_drops", False) and not tape.exhausted():
+            return tape.choice([None, None, "clean"])
         return None
 
     # fair run to quiescence (stabilisation phase)
